@@ -80,6 +80,9 @@ def replace_implicit_dot(source: str) -> str:
 
 @processing.fix
 def replace_implicit_matmul(source: str) -> str:
+    if not _uses_numpy(core.parse(source)):
+        return  # lists of lists would become arrays, in a program that may not have numpy at all
+
     find = """
     for {{i}} in range(len({{left}})):
         for {{j}} in range(len({{right}}[0])):
